@@ -1,6 +1,6 @@
 (* Pins for C02: restated statements + assumptions. Generated once by tools/mkpins.py, then committed. *)
 Require Import VT.Tac VT.ListN VT.Attrs VT.Cell VT.Row VT.Grid VT.Screen VT.Vte VT.Perform VT.Parser VT.Term VT.Emit.
-Require Import VT.GridInv VT.ScreenInv VT.ParseSer VT.CellWf VT.WfInv VT.SgrSpec VT.EmitSafe VT.AttrsInv VT.EmitTokens VT.ObsSpec VT.DiffRound.
+Require Import VT.GridInv VT.ScreenInv VT.ParseSer VT.CellWf VT.WfInv VT.SgrSpec VT.EmitSafe VT.AttrsInv VT.EmitTokens VT.ObsSpec VT.DiffRound VT.DiffHistory.
 Require Import VT.Tac VT.ListN VT.Utf8 VT.Width VT.Attrs VT.Cell VT.Row VT.Grid VT.Screen VT.Vte VT.Perform VT.Parser VT.Term VT.Emit.
 Require Import VT.RowInv VT.GridInv VT.TextInv VT.ScreenInv VT.ParseSer VT.CellWf VT.WfInv VT.WrapInv VT.WrapInvScreen VT.SgrSpec VT.EmitSafe VT.ObsSpec.
 Require Import VT.AttrsInv VT.EmitTokens VT.CellInv VT.Recv VT.RowPaint VT.Redraw VT.Cursor VT.C01Main VT.C15Main VT.CapInv VT.Idem VT.LastRow VT.C01Examples VT.Bytes.
@@ -9,7 +9,11 @@ Require Import VT.Tac VT.ListN VT.Utf8 VT.Width VT.Attrs VT.Cell VT.Row VT.Grid 
 Require Import VT.RowInv VT.GridInv VT.TextInv VT.ScreenInv VT.ParseSer VT.CellWf VT.WfGrid VT.WfInv VT.WrapInv VT.WrapInvScreen VT.SgrSpec VT.EmitSafe VT.ObsSpec.
 Require Import VT.AttrsInv VT.EmitTokens VT.CellInv VT.Recv VT.RowPaint VT.Redraw VT.Cursor VT.C01Main VT.C15Main VT.CapInv VT.Idem VT.LastRow VT.C01Examples VT.Bytes.
 Require Import VT.DiffRound VT.DiffPaint VT.DiffGrid VT.DiffMain VT.DiffRoundU VT.DiffWrap VT.DiffK10 VT.DiffRoundK.
-Require Import VT.Props.C02 VT.Props.C02sem VT.Props.C02k10.
+Require Import VT.Tac VT.ListN VT.Utf8 VT.Width VT.Attrs VT.Cell VT.Row VT.Grid VT.Screen VT.Vte VT.Perform VT.Parser VT.Term VT.Emit.
+Require Import VT.RowInv VT.GridInv VT.TextInv VT.ScreenInv VT.ParseSer VT.CellWf VT.WfGrid VT.WfInv VT.WrapInv VT.WrapInvScreen VT.SgrSpec VT.EmitSafe VT.ObsSpec.
+Require Import VT.AttrsInv VT.EmitTokens VT.CellInv VT.Recv VT.RowPaint VT.Redraw VT.Cursor VT.C01Main VT.C15Main VT.CapInv VT.Idem VT.LastRow VT.C01Examples VT.Bytes.
+Require Import VT.DiffRound VT.DiffHistory VT.DiffPaint VT.DiffGrid VT.DiffMain VT.DiffRoundU VT.DiffWrap VT.DiffK10 VT.DiffRoundK VT.DiffRoundAll.
+Require Import VT.Props.C02 VT.Props.C02sem VT.Props.C02k10 VT.Props.C02all.
 Open Scope N_scope.
 Check C02_statement_def : forall Pr Sc,
   diff_round_ok Pr Sc <->
@@ -19,12 +23,17 @@ Check C02_statement_def : forall Pr Sc,
      do ts <- state_diff_t Sc Pr; process r0 (ser_all ts)) = Ok r /\
     obs (scr r) = Ok o /\ obs Sc = Ok o.
 Print Assumptions C02_statement_def.
-Check C02_refuted : exists Pr Sc,
+Check C02_old_loop_refuted : exists Pr Sc,
   reachable Pr /\ reachable Sc /\ grows (cur Pr) = grows (cur Sc) /\ gcols (cur Pr) = gcols (cur Sc) /\
-  ~ diff_round_ok Pr Sc.
-Print Assumptions C02_refuted.
-Check C02_refuted_witness : d10_check = Ok (false, [false; false], [true; false]).
-Print Assumptions C02_refuted_witness.
+  ~ diff_round_old_ok Pr Sc.
+Print Assumptions C02_old_loop_refuted.
+Check C02_old_loop_witness : d10_check_old = Ok (false, [false; false], [true; false]).
+Print Assumptions C02_old_loop_witness.
+Check C02_d10_repaired : d10_check = Ok (true, [true; false], [true; false]).
+Print Assumptions C02_d10_repaired.
+Check C02_d10_round_trips : exists Pr Sc,
+  after 2 2 d10_P = Ok Pr /\ after 2 2 d10_S = Ok Sc /\ reachable Pr /\ reachable Sc /\ diff_round_ok Pr Sc.
+Print Assumptions C02_d10_round_trips.
 Check C02_total : forall s p, reachable s -> reachable p ->
   (exists ts, contents_diff_t s p = Ok ts /\ forallb token_ok ts = true /\ reparses ts) /\
   (exists ts, state_diff_t s p = Ok ts /\ forallb token_ok ts = true /\ reparses ts).
@@ -47,7 +56,7 @@ Print Assumptions C02_bytes.
 Check C02_no_panic : forall s p, screen_ok s -> screen_ok p ->
   (exists ts, contents_diff_t s p = Ok ts) /\ (exists ts, state_diff_t s p = Ok ts).
 Print Assumptions C02_no_panic.
-Check C02_equal_obs : forall s p o, screen_ok s -> screen_ok p -> obs s = Ok o -> obs p = Ok o ->
+Check C02_equal_obs : forall s p o, screen_ok s -> screen_wf s -> screen_ok p -> obs s = Ok o -> obs p = Ok o ->
   contents_diff_t s p = Ok [] /\ state_diff_t s p = Ok [] /\ input_mode_diff_t s p = [].
 Print Assumptions C02_equal_obs.
 Check C02_equal_obs_round : forall Pr Sc o r, reachable Sc -> reachable Pr -> obs Sc = Ok o -> obs Pr = Ok o ->
@@ -314,3 +323,60 @@ Check C02sem_K_example : exists A B C,
   ~ in_W A B /\ ~ in_W C A /\ ~ in_W A C /\
   diff_round_ok A B /\ diff_round_ok C A /\ diff_round_ok A C.
 Print Assumptions C02sem_K_example.
+Check C02all_clears_wrap_def : forall cols rw prw, clears_wrap cols rw prw =
+  (2 <=? cols)
+  && (match row_get prw (cols - 2) with Some c => cwide c | None => false end)
+  && negb (match row_get rw (cols - 2) with Some c => has_contents c | None => false end).
+Print Assumptions C02all_clears_wrap_def.
+Check C02all_loop_def : forall cols rw prw rest i w pw pos a acc,
+  rows_diff_loop cols ((rw, prw) :: rest) i w pw pos a acc =
+  (do '(ts, pos', a') <- row_diff rw prw 0 cols i w pw pos a;
+   rows_diff_loop cols rest (i + 1) (wrapped rw) (wrapped prw && negb (clears_wrap cols rw prw)) pos' a' (acc ++ ts)).
+Print Assumptions C02all_loop_def.
+Check C02sem_all : forall P S, reachable P -> reachable S -> sb_off (cur P) = 0 -> sb_off (cur S) = 0 ->
+  grows (cur P) = grows (cur S) -> gcols (cur P) = gcols (cur S) -> diff_round_ok P S.
+Print Assumptions C02sem_all.
+Check C02sem_all_strong : forall P S, reachable P -> reachable S -> sb_off (cur P) = 0 -> sb_off (cur S) = 0 ->
+  grows (cur P) = grows (cur S) -> gcols (cur P) = gcols (cur S) ->
+  exists r, diff_round P S = Ok r /\ obs (scr r) = obs S /\ log r = [] /\ ground (vt r) /\ canvas (scr r).
+Print Assumptions C02sem_all_strong.
+Check C02all_snap_def : forall rows cols s, snap_all rows cols s <->
+  (reachable s /\ sb_off (cur s) = 0 /\ grows (cur s) = rows /\ gcols (cur s) = cols).
+Print Assumptions C02all_snap_def.
+Check C02sem_all_chain : forall rows cols S0 snaps,
+  snap_all rows cols S0 -> Forall (snap_all rows cols) snaps ->
+  exists r r', reproduce S0 = Ok r /\ diff_chain r S0 snaps = Ok r' /\
+               obs (scr r') = obs (last_snap S0 snaps) /\ log r' = [] /\ ground (vt r').
+Print Assumptions C02sem_all_chain.
+Check C02sem_all_chain_step : forall rows cols snaps prev r,
+  snap_all rows cols prev -> Forall (snap_all rows cols) snaps ->
+  ground (vt r) -> shows prev (scr r) (live (cur prev)) -> same_modes prev (scr r) ->
+  exists r', diff_chain r prev snaps = Ok r' /\ log r' = log r /\ ground (vt r') /\
+             shows (last_snap prev snaps) (scr r') (live (cur (last_snap prev snaps))) /\
+             same_modes (last_snap prev snaps) (scr r') /\
+             obs (scr r') = obs (last_snap prev snaps).
+Print Assumptions C02sem_all_chain_step.
+Check C02sem_all_state_diff : forall S P R vr pvr ts,
+  source_ok S vr -> source_ok P pvr ->
+  (forall src, get vr (grows (cur S) - 1) = Some src -> wrapped src = false) ->
+  grows (cur S) = grows (cur P) -> gcols (cur S) = gcols (cur P) ->
+  shows P R pvr -> same_modes P R -> state_diff_t S P = Ok ts ->
+  exists R', plays R ts R' /\ shows S R' vr /\ same_modes S R'.
+Print Assumptions C02sem_all_state_diff.
+Check C02sem_all_grid_diff : forall R x px vr pvr pa,
+  canvas R -> vrows_ok (gcols (g R)) vr -> vrows_ok (gcols (g R)) pvr ->
+  (forall src, get vr (grows (g R) - 1) = Some src -> wrapped src = false) ->
+  visible_rows x = Ok vr -> visible_rows px = Ok pvr ->
+  len vr = grows (g R) -> len pvr = grows (g R) -> gcols x = gcols (g R) ->
+  prow x < grows (g R) -> pcol x <= gcols (g R) ->
+  cv R pvr (prow px) (pcol px) -> pen_ok pa ->
+  exists ts a' R2,
+    grid_contents_diff x px pa = Ok (ts, a') /\
+    plays (rcv R pvr (prow px) (pcol px) pa) ts (rcv R2 vr (prow x) (pcol x) a') /\
+    cv R2 vr (prow x) (pcol x) /\ same_base R R2 /\ pen_ok a'.
+Print Assumptions C02sem_all_grid_diff.
+Check C02all_Wcond_clears : forall R s' p', Wcond R s' p' -> clears_wrap (gcols (g R)) s' p' = true.
+Print Assumptions C02all_Wcond_clears.
+Check C02all_d10 : exists Pr Sc,
+  after 2 2 d10_P = Ok Pr /\ after 2 2 d10_S = Ok Sc /\ k10 Pr Sc = true /\ diff_round_ok Pr Sc.
+Print Assumptions C02all_d10.
